@@ -68,6 +68,16 @@ def search(S):
             MY = L.f(SO3EulerB321.elem(ca.DM(L.f(Y.param))).to_Matrix())
             S.check("SO3Euler.from_Matrix", "gimbal_band", {"e": e.tolist()}, bool(np.all(np.isfinite(MY)) and np.max(np.abs(MY - R)) <= 2.5e-3), R.tolist(), MY.tolist(),
                     "inside the gimbal band the rotation error exceeds the documented 1e-3 rad tolerance")
+    # just outside the band (the property applies from 1e-3 rad on): every conversion into Euler must be exact there
+    for sign in (1, -1):
+        for dth in (1.2e-3, 2e-3, 5e-3, 1e-2, 2e-2, 4e-2, 8e-2):
+            e = np.array([rng.uniform(-3, 3), sign * (np.pi / 2 - dth), rng.uniform(0.3, 3) * rng.choice([-1, 1])])
+            R = L.f(SO3EulerB321.elem(ca.DM(e)).to_Matrix())
+            for nm, conv in (("from_Matrix", lambda: SO3EulerB321.from_Matrix(ca.SX(ca.DM(R)))), ("from_Dcm", lambda: SO3EulerB321.from_Dcm(SO3Dcm.elem(ca.DM(R.reshape(9, order="F")))))):
+                Y = conv()
+                MY = L.f(SO3EulerB321.elem(ca.DM(L.f(Y.param))).to_Matrix())
+                S.check("SO3Euler." + nm, "near_band", {"e": e.tolist()}, bool(np.all(np.isfinite(MY)) and np.max(np.abs(MY - R)) <= 1e-9 / dth), R.tolist(), MY.tolist(),
+                        "just outside the gimbal band the conversion into Euler angles changes the rotation")
 
 
 H.run(search, "random + structured rotations (all Shepperd branches, exactly pi, near identity, both quaternion signs), all 12 ordered representation pairs + shadow switch + gimbal band; reference = numpy Rodrigues matrix; distinct = distinct (unit, input)")
